@@ -81,7 +81,23 @@ FORKABLE_RULE = ("cases = generated block tree (3-14 blocks + root; forks at any
                  "distinct = sha1 of header+ops; non-trivial = at least one Undo or Irreversible event delivered")
 FORKABLE_TB = ["Forkable.ProcessBlock / ForkDB modelled statement by statement in Model/Forkable.lean, Model/ForkDB.lean (Go maps as one keyed entry list, uint64 heights as Nat); EnsureBlockFlows and the unlinkable-block counters are not modelled (never enabled)"]
 
+def nt_files(suite, case, impl):
+    if suite == "dbin":
+        return any(l.startswith("impl blk") for l in case["lines"]) and any(" trunc " in l or " corrupt " in l for l in case["lines"])
+    return any(l.startswith("impl ok") or l.startswith("impl found") for l in case["lines"])
+
+
 PROPS = {
+    "C16": {
+        "suites": [("dbin", 400, 4000), ("oneblock", 3000, 40000)], "props": ["C16"], "level": "proof",
+        "nontrivial": nt_files,
+        "technique": "Lean 4 theorems on a byte-level model of the dbin framing and of the file-name codec (append/prefix lemmas, decimal and split inverses) + differential correspondence on intact, truncated and corrupted files with proto.Unmarshal as oracle",
+        "level_text": "roundtrip, truncation (every truncation point: header error or a correct prefix, end-of-file only at a frame boundary), damage_after_prefix (frames before a damaged byte are returned unaltered), decodes_only_complete and filename_roundtrip are kernel-checked for all byte strings; protobuf is an abstract codec (hypothesis dec m = some (d m), checked dynamically). 'Never an altered block' is false for a corrupted byte inside a message (no checksum) and for ids containing '-': both are known findings with kernel-checked/recorded witnesses.",
+        "level_note": LEVEL_NOTE_COMMON + "dbin library (io.ReadFull zero-padding) modelled by readN; protobuf marshal/unmarshal abstract; dstore.MockStore walk order = sorted names.",
+        "rule": "dbin cases = 1-4 generated blocks (payload or legacy PayloadKind/PayloadBuffer, heights from the 64-bit pool, 0-59 payload bytes, 1 in 25 with an all-default block marshalling to zero bytes) written with DBinBlockWriter, then read intact, at 6 (thorough 40) truncation points biased to header/prefix/tail boundaries and with 6 (40) single-byte corruptions (header, first length prefix, anywhere; values 0,1,2,0x7f,0x80,0xff,random); variants whose damaged length prefix exceeds 16 MiB are skipped for speed and counted. oneblock cases = 1-4 ops of file-name build/parse/round-trip (ids 0-64 chars incl. empty and with '-', heights up to 2^64-1, mutated names) and FetchBlockFromOneBlockStore over generated stores. distinct = sha1 of ops; non-trivial = dbin: at least one block read from a damaged file; oneblock: at least one successful parse/fetch",
+        "explanation": "theorems over all byte strings; correspondence compares every Read() result and end class with the model (oracle = dbin library split + proto.Unmarshal of each message)",
+        "assumptions": ["proto.Marshal/Unmarshal round-trip (checked on every written block)", "ACCEPT_SOLANA_LEGACY_BLOCK_FORMAT unset"],
+    },
     "C01": {
         "suites": [("forkable", 3000, 40000)], "props": ["C01"], "level": "other",
         "projection": proj_forkable, "nontrivial": nt_forkable, "rule": FORKABLE_RULE, "trusted_base": FORKABLE_TB,
